@@ -80,6 +80,7 @@ type VQuery struct {
 	Mode   int      `json:"mode"`   // 0 order by ts asc, 1 order by ts desc, 2 order by series
 	Schema int      `json:"schema"` // 0 no tag projection, 1 tag c declared int, 2 tag c declared string
 	Batch  bool     `json:"batch"`  // PullBatch instead of Pull
+	Part   uint64   `json:"part"`   // 0 = every part of the snapshot, else only the part with this id
 }
 
 // VTable drives a real tsTable.
@@ -454,6 +455,16 @@ func (v *VTable) Query(q VQuery) (out []VOut, err error) {
 	}
 	defer snp.decRef()
 	pp, n := snp.getParts(nil, v.cache, q.Min, q.Max)
+	if q.Part != 0 {
+		// scan a single part, as a query does whose time range prunes the other parts
+		var only []*part
+		for _, p := range pp {
+			if p.partMetadata.ID == q.Part {
+				only = append(only, p)
+			}
+		}
+		pp, n = only, len(only)
+	}
 	if n < 1 {
 		return nil, nil
 	}
